@@ -1,7 +1,9 @@
 (* ops 130-149: lexer and splitter.
    130 text          -> marks as (pos text) pairs (re.finditer view)
    131 text          -> split_raw: blocks before Library.add
-   132 text          -> split: Library blocks (duplicate wrapping applied) *)
+   132 text          -> split: Library blocks (duplicate wrapping applied)
+   135 text1 text2   -> Splitter(text2).split(library=Splitter(text1).split()): blocks of the second text added to the
+                        library holding the first text's (raw) blocks *)
 From Coq Require Import List NArith ZArith Bool.
 From BP Require Import Base.Chars Base.Sx Model.Blocks Run.Codec Model.Lexer Model.Splitter.
 Import ListNotations.
@@ -20,6 +22,13 @@ Definition run_splitter (op : Z) (args : list sx) : sx :=
           else if op =? 132 then enc_outcome (split text)
           else sx_err
       | None => sx_err
+      end
+  | [t1; t2] =>
+      match as_str t1, as_str t2 with
+      | Some a, Some b =>
+          if op =? 135 then match split_raw a with Blocks prev => enc_outcome (split_into prev b) | Raised => r_exc 6 end
+          else sx_err
+      | _, _ => sx_err
       end
   | _ => sx_err
   end.
